@@ -126,6 +126,9 @@ func stripForSubmit(p *workflow.Plan) {
 }
 
 func c14Run(c *Ctx, idx int) CaseResult {
+	if idx%4 == 3 && (idx/4)%6 == 3 {
+		return c14CosmosDeath(c, idx)
+	}
 	if idx%4 == 3 {
 		return c14Kill(c, idx)
 	}
@@ -636,7 +639,7 @@ func c14Kill(c *Ctx, idx int) CaseResult {
 func init() {
 	register(&Prop{
 		ID: "C14", Level: "fault_enumeration", Batch: 24, PerCaseTimeout: 90 * time.Second,
-		Rule:  "case i by i mod 4: (0) a request that cannot be encoded planted at EVERY action position of a PRNG plan (check and sequence actions; vault.Create, a third through Submit), (1) duplicate Create with a different second version, (2) PRNG create/delete history, (3) process death inside Create on a file-backed store: a request whose MarshalJSON SIGKILLs the process at a PRNG action position of a PRNG plan, or (every third) SIGKILL at a PRNG time during a 40-plan create storm, or (every third) strace attached to the open store delivering SIGKILL when a thread enters its N-th pwrite64 (WAL frame / commit record) or N-th fsync, checked by a second process; oracle: no trace (Read/Exists/raw rows) or complete and equal; other plans and their raw row counts unchanged; distinct by (vault, mode, trace)",
+		Rule:  "case i by i mod 4: (0) a request that cannot be encoded planted at EVERY action position of a PRNG plan (check and sequence actions; vault.Create, a third through Submit), (1) duplicate Create with a different second version, (2) PRNG create/delete history, (3) process death inside Create on a file-backed store: a request whose MarshalJSON SIGKILLs the process at a PRNG action position of a PRNG plan, or (every third) SIGKILL at a PRNG time during a 40-plan create storm, or (every third) strace attached to the open store delivering SIGKILL when a thread enters its N-th pwrite64 (WAL frame / commit record) or N-th fsync, checked by a second process; every sixth of these cases instead: cosmosdb, the hook's write gate lets k of the client writes of a Create through and blocks the caller for good, for every k, a second vault over the same storage is the next process; oracle: no trace (Read/Exists/raw rows) or complete and equal; other plans and their raw row counts unchanged; distinct by (vault, mode, trace)",
 		Cases: nCases(160, 2400),
 		Run:   c14Run,
 		RaceAttr: func(rb ev.RaceBlock) bool {
@@ -655,6 +658,6 @@ func init() {
 			}
 			return ""
 		},
-		Assumptions: []string{"crash = process death (SIGKILL); power loss / fsync ordering is out of reach", "process death is sqlite-only: the cosmosdb fake has no crash semantics"},
+		Assumptions: []string{"crash = process death (SIGKILL); power loss / fsync ordering is out of reach", "process death inside one storage write is sqlite-only (the cosmosdb fake has no crash semantics); on cosmosdb the death between two client writes of a Create is explored with the hook write gate"},
 	})
 }
